@@ -1,7 +1,7 @@
 (* C07 -- skipping a Thrift value consumes exactly that value (recursive skippers: the default
    skipper used by binary / binary-LE, the compact skipper, the asynchronous skipper of all three;
    the iterative skipper of the unchecked codec is covered with C11). *)
-From PV Require Import Thrift.Skip Proofs.HeaderP Proofs.RoundtripP Proofs.AsyncP Proofs.SkipP.
+From PV Require Import Thrift.Skip Thrift.Unsafe Proofs.HeaderP Proofs.RoundtripP Proofs.AsyncP Proofs.SkipP Proofs.UnsafeP Proofs.IterSkipP.
 Open Scope Z_scope.
 
 (* General form: on EVERY input -- pilota's own encodings, any other encoding the reader accepts,
@@ -48,3 +48,70 @@ Theorem C07_async_skip_written : forall p k v c,
          askip p fuel (ttype_of v) (mkS (flat ss ++ r) r0) = Err EDepthLimit).
 Proof. exact askip_written. Qed.
 Print Assumptions C07_async_skip_written.
+
+(* ---- the ITERATIVE skipper of the unchecked binary codec (explicit SkipData stack, fixed-size fast
+   paths; no depth limit) ---- *)
+
+(* the regenerated BINARY_BASIC_TYPE_FIXED_SIZE table, entry by entry (by computation: a changed
+   entry breaks this theorem) *)
+Theorem C07_iter_fixed_table :
+  fixed_size TBool = 1 /\ fixed_size TI8 = 1 /\ fixed_size TI16 = 2 /\ fixed_size TI32 = 4 /\
+  fixed_size TI64 = 8 /\ fixed_size TDouble = 8 /\ fixed_size TUuid = 16 /\
+  fixed_size TBinary = 0 /\ fixed_size TStruct = 0 /\ fixed_size TMap = 0 /\ fixed_size TSet = 0 /\
+  fixed_size TList = 0 /\ fixed_size TStop = 0 /\ fixed_size TVoid = 0.
+Proof. exact fixed_table. Qed.
+Print Assumptions C07_iter_fixed_table.
+
+(* a positive entry is the exact encoded length of EVERY well-typed value of that wire type *)
+Theorem C07_iter_fixed_table_encoded : forall t n, fixed_size t = n -> 0 < n ->
+  forall v, ttype_of v = t -> wt v = true ->
+  forall k c ss c', write_val PBinary k v c = Ok (ss, c') -> Z.of_nat (length (flat ss)) = n.
+Proof. exact fixed_table_encoded. Qed.
+Print Assumptions C07_iter_fixed_table_encoded.
+
+(* ... and the exact number of bytes the checked binary skipper passes over for that type *)
+Theorem C07_iter_fixed_table_skipped : forall f d ty s c s',
+  skip_val PBinary f d ty s = Ok (c, s') -> 0 < fixed_size ty ->
+  c = fixed_size ty /\ exists a, r_take (Z.to_nat (fixed_size ty)) s = Ok (a, s').
+Proof. exact skip_fixed. Qed.
+Print Assumptions C07_iter_fixed_table_skipped.
+
+(* stack-machine simulation: on EVERY input on which the recursive skipper of the checked binary
+   protocol succeeds -- with any depth budget [d], i.e. for every nesting depth -- the iterative
+   skipper (started with its index where the checked reader stands: RU) reports the same count
+   after [k] turns of its loop (more fuel changes nothing), stops at the same position, keeps its
+   window and has advanced its index by exactly the count; no access outside the window *)
+Theorem C07_iter_simulates_skip : forall f d ty s c s' u,
+  skip_val PBinary f d ty s = Ok (c, s') -> RU s u ->
+  exists k u', (forall fuel, skip_iter (k + fuel) ty u = Ok (c, u')) /\
+               RU s' u' /\ ubuf u' = ubuf u /\ Z.of_nat (uidx u') = Z.of_nat (uidx u) + consumed s s'.
+Proof. exact iter_simulates_skip. Qed.
+Print Assumptions C07_iter_simulates_skip.
+
+(* the same against the recursive reader: whatever value (of any depth) the checked binary reader
+   returns, the iterative skipper passes over exactly its bytes and reports their number *)
+Theorem C07_iter_simulates_read : forall f ty s v s' u,
+  read_val PBinary f ty s = Ok (v, s') -> RU s u ->
+  exists k u', (forall fuel, skip_iter (k + fuel) ty u = Ok (consumed s s', u')) /\
+               RU s' u' /\ ubuf u' = ubuf u /\ Z.of_nat (uidx u') = Z.of_nat (uidx u) + consumed s s'.
+Proof. exact iter_simulates_read. Qed.
+Print Assumptions C07_iter_simulates_read.
+
+(* TInputProtocol::skip of the unchecked reader (rewind over the field header, re-window, loop) *)
+Theorem C07_iter_skip_entry : forall f d ty s c s' u,
+  skip_val PBinary f d ty s = Ok (c, s') -> RU s u -> (3 <= uidx u)%nat ->
+  exists k u', (forall fuel, u_skip (k + fuel) ty u = Ok (c, u')) /\ RU s' u'.
+Proof. exact u_skip_simulates. Qed.
+Print Assumptions C07_iter_skip_entry.
+
+(* composed with C01: a well-typed value of ANY nesting depth written by pilota's binary writer,
+   followed by arbitrary bytes [r]: the iterative skipper reports exactly the bytes written, leaves
+   exactly [r]; unlike the recursive skippers it has no depth limit (Example iter_examples: depth 70
+   is refused by the recursive skipper and skipped by this one) *)
+Theorem C07_iter_written : forall k v c,
+  wt v = true -> w_pend c = None ->
+  exists ss, write_val PBinary k v c = Ok (ss, c) /\
+    forall r, exists n u', (forall fuel, skip_iter (n + fuel) (ttype_of v) (mkU (flat ss ++ r) 0) = Ok (Z.of_nat (length (flat ss)), u')) /\
+                           urest u' = r /\ uidx u' = length (flat ss).
+Proof. exact iter_skip_written. Qed.
+Print Assumptions C07_iter_written.
